@@ -329,8 +329,8 @@ func (p *Proxy) handle(conn net.Conn) {
 		preparedSystemQuery: make(map[[preparedIdSize]byte]interface{}),
 		codec:               codecs.CustomRawCodec,
 	}
+	cl.conn = proxycore.NewConn(conn, cl) // Set before the client is published, `Close()` uses it
 	p.addClient(cl)
-	cl.conn = proxycore.NewConn(conn, cl)
 	cl.conn.Start()
 }
 
